@@ -8,7 +8,7 @@
     else (spellings, surrounding text, values) is universally quantified. *)
 From Coq Require Import List ZArith NArith QArith Qabs Bool String.
 From RG Require Import Base.Str Base.Num Gen.GenUnits Model.Recipe Model.Units Spec.UnitsRef
-  Proofs.UnitsScan Proofs.UnitsTable Proofs.UnitsAlt Proofs.UnitsTail.
+  Proofs.UnitsScan Proofs.UnitsTable Proofs.UnitsAlt Proofs.UnitsTail Proofs.RecipeB64 Proofs.UnitsFloat.
 Import ListNotations.
 
 (** ** The table *)
@@ -156,13 +156,12 @@ Theorem C12_assert_cannot_fail_exact : (forall z, value_ok (NInt z)) /\ (forall 
 Proof. exact (conj value_ok_int value_ok_frac). Qed.
 Print Assumptions C12_assert_cannot_fail_exact.
 
-(** ... and for floats that are binary64 numbers.  PARTIAL: [representable]
-    (rounding the float's own exact value gives it back) is an invariant of
-    every Python float, but it is a hypothesis here: the general round-trip
-    lemma for Base/Num.v's [b64] is not proved. *)
-Theorem C12_assert_cannot_fail_float_partial : forall m e, representable (NFloat m e) -> value_ok (NFloat m e).
-Proof. exact value_ok_float. Qed.
-Print Assumptions C12_assert_cannot_fail_float_partial.
+(** ... and for every float that is a binary64 number ([wf_float]: zero, or an
+    odd mantissa below 2^53 with the exponent in range - the canonical form
+    of every finite Python float), by the exactness of [b64] on such values. *)
+Theorem C12_assert_cannot_fail_float : forall m e, wf_float (NFloat m e) -> value_ok (NFloat m e).
+Proof. exact value_ok_wf_float. Qed.
+Print Assumptions C12_assert_cannot_fail_float.
 
 (** ** Equal amounts *)
 (** FULL statement aimed at: for all quantities a b with known units,
@@ -222,8 +221,11 @@ Example C12_ex_convert :
   convert_between (s "kg") (s "g") = Ok (NFrac 1000 1) /\
   convert_between (s "ounces") (s "pounds") = Ok (NFrac 1 16) /\
   same_kind (s "cups") (s "tea spoon") = true /\ same_kind (s "g") (s "l") = false /\
-  exact_num (NFrac 1 16) /\ representable (NFloat 5 (-1)).
+  exact_num (NFrac 1 16).
 Proof. vm_compute. repeat split; reflexivity. Qed.
+
+Example C12_ex_float : wf_float (NFloat 5 (-1)).      (* 2.5 *)
+Proof. right. repeat split; try reflexivity; discriminate. Qed.
 
 (** the equal-amount theorem applies: 1 kg = 1000 g, 3 tsp = 1 tbsp *)
 Example C12_ex_equal :
